@@ -802,6 +802,32 @@ def canary_counter():
 
 
 # ------------------------------------------------------------------ run
+def side_by_side(fns):
+    """Run independent TLC jobs concurrently (started 0.3 s apart: lib.tlc numbers its scratch directories with a plain counter)."""
+    import threading
+    import time
+
+    res, err = [None] * len(fns), []
+
+    def work(i):
+        try:
+            res[i] = fns[i]()
+        except BaseException as e:  # noqa: BLE001 - re-raised in the caller's thread
+            err.append(e)
+
+    ts = []
+    for i in range(len(fns)):
+        t = threading.Thread(target=work, args=(i,))
+        t.start()
+        ts.append(t)
+        time.sleep(0.3)
+    for t in ts:
+        t.join()
+    if err:
+        raise err[0]
+    return res
+
+
 def jvm_stack():
     # TLC evaluates the recursive definitions of CipherModes / Crc by recursion on the Java stack (~11 KB per level): give every
     # JVM of this check a large thread stack (JDK_JAVA_OPTIONS is read by the java launcher itself, so it also covers the main thread)
@@ -826,22 +852,21 @@ def run(tier):
                          f"3 CRC check values, SB3.1 KDF vector, RT5xx SB2.1 key blob), {b1} corrupted copies rejected; Counter: {g2} accepted, {b2} corrupted rejected")
     say(f"[C09] canaries ok {v.timer.s()}s")
 
-    # ---- MC: lemmas of the R-spec
-    mc1 = tlc.mc("C09", "ModesMC", "ModesMC.cfg", workers=4, coverage=False)
-    v.add_mc(mc1)
-    mc2 = tlc.mc("C09", "CounterMC", "CounterMC.cfg" if quick else "CounterMC_thorough.cfg", workers=4 if quick else 8,
-                 require_actions=("NewCase", "IncPlain", "IncWrapping", "DoRead"))
-    v.add_mc(mc2)
-    mc3 = tlc.mc("C09", "CrcMC", "CrcMC.cfg" if quick else "CrcMC_thorough.cfg", workers=1 if quick else 4, coverage=False)
-    v.add_mc(mc3)
+    # ---- MC (lemmas of the R-spec) and GEN (abstract cases of the wrapper API) - four independent TLC runs, side by side
+    acts = ("NewCase", "IncPlain", "IncWrapping", "DoRead")
+    runs = [
+        lambda: tlc.mc("C09", "ModesMC", "ModesMC.cfg", workers=4, coverage=False),
+        lambda: tlc.mc("C09", "CounterMC", "CounterMC.cfg" if quick else "CounterMC_thorough.cfg", workers=4 if quick else 8, require_actions=acts),
+        lambda: tlc.mc("C09", "CrcMC", "CrcMC.cfg" if quick else "CrcMC_thorough.cfg", workers=1 if quick else 4, coverage=False),
+        lambda: tlc.run("C09", "WrapperApi", "WrapperApi.cfg" if quick else "WrapperApi_thorough.cfg", workers=1, heap="8g"),
+    ]
+    mc1, mc2, mc3, gen = side_by_side(runs)
+    for x in (mc1, mc2, mc3, gen):
+        v.add_mc(x)
     crc_cases = [c for c in mc3.json_prints() if "alg" in c]
     if len(crc_cases) < 100:
         raise Machinery(f"CrcMC emitted only {len(crc_cases)} cases")
     say(f"[C09] MC done {v.timer.s()}s: modes {mc1.distinct} cases, counter {mc2.distinct} states, crc {mc3.distinct} cases")
-
-    # ---- GEN: abstract cases of the wrapper API, behaviours of the counter
-    gen = tlc.run("C09", "WrapperApi", "WrapperApi.cfg" if quick else "WrapperApi_thorough.cfg", workers=1, heap="8g")
-    v.add_mc(gen)
     cases = [c for c in gen.json_prints() if "fam" in c]
     if len(cases) != gen.distinct or len(cases) < 1000:
         raise Machinery(f"WrapperApi emitted {len(cases)} cases for {gen.distinct} states")
